@@ -34,11 +34,11 @@ Definition good (st : state) : Prop :=
 
 Definition mono (st st' : state) : Prop := forall a n, allocated st a n -> allocated st' a n.
 
-(* the panic sites of the segment / map code: arithmetic of remaining / make_active / write_at, panics inside
-   MemoryMap::{find, put}, "segment not inactive", and the three assert_eq! on the count returned by put *)
+(* the panic sites of the segment / map code: arithmetic of remaining / make_active / write_at, the assert of write_at,
+   panics inside MemoryMap::{find, put}, "segment not inactive", and the three assert_eq! on the count returned by put *)
 Definition seg_site (p : site) : Prop :=
   match p with
-  | P_map _ | P_remaining | P_next_sub | P_write_at_sub | P_not_inactive
+  | P_map _ | P_remaining | P_next_sub | P_write_at_sub | P_not_inactive | P_write_at_assert
   | P_close_assert | P_put_assert_instr | P_put_assert_data => True
   | _ => False
   end.
